@@ -276,11 +276,82 @@ def solver_part(ctx):
         ctx.sample({"hist_case": sx.to_sexp(cases[-1])[:400], "result": (outs[-1] or "")[:300]})
 
 
+TEXT_SOLVERS = [("slg", H.SLG), ("rec", H.REC), ("rec-nocache", H.rec_with(100, False, 30))]
+
+
+def text_part(ctx):
+    """witness programs outside the proggen fragment (histlib.text_corpus): every order of the goals on one
+    solver = fresh answers, and cache on = cache off step by step.  A difference is attributed to the class
+    `rec-ambig-existential-bound` (F31) only for the recursive solver, only when the class predicate holds
+    for the goal (decided on the input) and only when the two answers differ in definiteness (Unique vs
+    Ambiguous) - never for Unique vs NoSolution."""
+    import itertools
+    cases, index = [], []
+    corpus = H.text_corpus()
+    for ti, (name, text, gts) in enumerate(corpus):
+        ords = [o for k in (2, 3) for o in itertools.permutations(range(len(gts)), k)]
+        for sname, solver in TEXT_SOLVERS:
+            for gi, gt in enumerate(gts):
+                index.append(("fresh", ti, sname, gi))
+                cases.append(H.case(text, solver, [H.solve_step(gt)]))
+            for o in ords:
+                index.append(("hist", ti, sname, tuple(o)))
+                cases.append(H.case(text, solver, [H.solve_step(gts[g]) for g in o]))
+    res, outs = H.run(cases, timeout=ctx.n(900, 1800))
+    fresh, hist = {}, {}
+    for (k, ti, sname, x), r in zip(index, res):
+        if r is None:
+            continue
+        if k == "fresh":
+            fresh[(ti, sname, x)] = r[0]["ans"]
+        else:
+            hist[(ti, sname, x)] = [st["ans"] for st in r]
+    stats = {"compared": 0, "known_class": 0, "diff": 0, "inconclusive": 0}
+
+    def comparable(a, b):
+        return not (a is None or b is None or H.is_death(a) or H.is_death(b) or H.kind(a) == "Panic" or H.kind(b) == "Panic")
+
+    def f31(sname, text, gt, a, b):
+        ks = {("Ambig" if H.is_ambig(x) else H.kind(x)) for x in (a, b)}
+        return sname.startswith("rec") and ks == {"Unique", "Ambig"} and H.rec_ambig_class(text, gt)
+
+    seen_known, nviol = set(), 0
+    for (ti, sname, o), answers in sorted(hist.items()):
+        name, text, gts = corpus[ti]
+        for j, (g, a) in enumerate(zip(o, answers)):
+            pairs = [("fresh", fresh.get((ti, sname, g)))]
+            if sname == "rec-nocache" and (ti, "rec", o) in hist:
+                pairs.append(("cache-on", hist[(ti, "rec", o)][j]))
+            for what, b in pairs:
+                if not comparable(a, b):
+                    stats["inconclusive"] += 1
+                    continue
+                stats["compared"] += 1
+                ctx.count("text-corpus-history", (name, sname, o, j, what), nontrivial=j > 0)
+                if a == b:
+                    continue
+                if f31(sname, text, gts[g], a, b) and ctx.match_known(None, "rec-ambig-existential-bound"):
+                    stats["known_class"] += 1
+                    if (ti, sname) not in seen_known:
+                        seen_known.add((ti, sname))
+                        ctx.known_finding(ctx.match_known(None, "rec-ambig-existential-bound"),
+                                          "%s %s: history %s, goal %s: %s vs %s %s" % (name, sname, list(o[:j + 1]), gts[g], sx.to_sexp(a), what, sx.to_sexp(b)))
+                    continue
+                stats["diff"] += 1
+                if nviol < 2:
+                    nviol += 1
+                    ctx.violation({"kind": "solver-history", "what": "answer on a used solver differs from the %s answer" % what,
+                                   "program": text, "solver": sname, "history": [gts[x] for x in o[:j + 1]], "goal": gts[g],
+                                   "history_answer": sx.to_sexp(a), "other_answer": sx.to_sexp(b), "shape": name})
+    ctx.cov["text_corpus"] = stats
+
+
 def run(ctx):
     ok, why = ctx.proof_stage("Props.C10", THEOREMS)
     core.build_harness(bins=["engine", "hist"])
     engine_part(ctx)
     solver_part(ctx)
+    text_part(ctx)
     if not ok and not ctx.violations:
         ctx.violation({"kind": "proof", "broken": why}, no_input=True)
 
@@ -293,6 +364,7 @@ def replay(ctx, obj):
         print("model:", obj.get("model"))
     elif "program" in obj:
         allcfg = dict(SOLVERS)
+        allcfg.update(dict(TEXT_SOLVERS))
         for (_p, _g, cfgs, _h) in H.size_programs():
             allcfg.update(dict(cfgs))
         solver = allcfg.get(obj.get("solver"), H.REC)
